@@ -9,7 +9,7 @@
 From Coq Require Import ZArith QArith List Bool String Ascii.
 From KV Require Import Base.Sx Base.Str Gen.Generated Model.Interp Model.SensorCache Model.SensorKeep Model.SensorTmpl.
 Import ListNotations.
-Open Scope Q_scope.
+Local Open Scope Q_scope.
 
 (* one record of the katstore answer: rec['sensor'], rec['value_time'], rec['value'], rec['status'] *)
 Record krec := mkK { k_sensor : string; k_t : Q; k_v : Q; k_st : string }.
